@@ -24,7 +24,7 @@ pub fn bases(all: bool) -> Vec<Base> {
     for carrier in [Carrier::Header, Carrier::Query] {
         for opt in 0..3u8 {
             for token in [false, true] {
-                for shape in 0..4u8 {
+                for shape in 0..5u8 {
                     let quick_pick = matches!(
                         (carrier, opt, token, shape),
                         (Carrier::Header, 0, false, 1)
@@ -35,6 +35,9 @@ pub fn bases(all: bool) -> Vec<Base> {
                             | (Carrier::Query, 0, true, 0)
                             | (Carrier::Query, 2, false, 3)
                             | (Carrier::Query, 1, true, 2)
+                            | (Carrier::Header, 1, false, 4)
+                            | (Carrier::Query, 1, false, 4)
+                            | (Carrier::Header, 0, false, 4)
                     );
                     if !all && !quick_pick {
                         continue;
@@ -62,6 +65,19 @@ pub fn bases(all: bool) -> Vec<Base> {
                             p.body = b"{\"k\":1}\x00\xff".to_vec();
                             p.headers.push(("Content-Type".into(), b"application/json".to_vec()));
                             p.signed.push("content-type".into());
+                        }
+                        4 => {
+                            // what S3-style clients send: the payload digest in a (signed) header
+                            p.method = "PUT".into();
+                            p.segs = vec![b"bucket".to_vec(), b"key".to_vec()];
+                            p.body = b"object bytes \x00\x01".to_vec();
+                            let digest = refmodel::hex_lower(&refmodel::hmac::sha256(&p.body));
+                            p.headers.push(("X-Amz-Content-Sha256".into(), digest.into_bytes()));
+                            p.headers.push(("Content-Length".into(), p.body.len().to_string().into_bytes()));
+                            p.headers.push(("Content-MD5".into(), b"1B2M2Y8AsgTpgAmY7PhCfg==".to_vec()));
+                            p.signed.push("x-amz-content-sha256".into());
+                            p.signed.push("content-length".into());
+                            p.signed.push("content-md5".into());
                         }
                         _ => {
                             p.method = "POST".into();
@@ -524,7 +540,7 @@ pub fn run(ctx: &Ctx) -> Report {
     Report {
         stats: st,
         rule: format!(
-            "{} validly signed base requests (carrier x options x token x shape), each accepted by implementation and reference; for each, every single-component mutation: 13 methods; every URI position x every byte http admits ({} values) + 7 insertions + deletion per position; every header (signed, unsigned, Authorization, date, token) position x 8 bytes + insertion + deletion, header removed/added/duplicated/renamed; every bit of every body byte, truncations, appends; old signature transplanted onto requests re-signed with a changed instant (10 deltas, 5 renderings), date text, 12 scope near-misses, 5 access keys, signed-list drops/additions, token changes; provider key: all 256 single-bit flips, 5 off-by-one derivations, another secret; signature: every digit x 15 other values, upper case, every truncation, extensions, all hex strings of length <= 2{}. Oracle: the implementation may return Ok only if the reference verifier, run on the request as received with the key the provider handed out, accepts. states = distinct reference strings-to-sign (+ refusal stage); non-trivial = distinct (mutated request, provider)",
+            "{} validly signed base requests (carrier x options x token x shape, one shape carrying x-amz-content-sha256 / Content-Length / Content-MD5 as S3 clients do), each accepted by implementation and reference; for each, every single-component mutation: 13 methods; every URI position x every byte http admits ({} values) + 7 insertions + deletion per position; every header (signed, unsigned, Authorization, date, token) position x 8 bytes + insertion + deletion, header removed/added/duplicated/renamed; every bit of every body byte, truncations, appends; old signature transplanted onto requests re-signed with a changed instant (10 deltas, 5 renderings), date text, 12 scope near-misses, 5 access keys, signed-list drops/additions, token changes; provider key: all 256 single-bit flips, 5 off-by-one derivations, another secret; signature: every digit x 15 other values, upper case, every truncation, extensions, all hex strings of length <= 2{}. Oracle: the implementation may return Ok only if the reference verifier, run on the request as received with the key the provider handed out, accepts. states = distinct reference strings-to-sign (+ refusal stage); non-trivial = distinct (mutated request, provider)",
             bs.len(), uri_bytes.len(),
             if thorough { "; plus all pairs over ~600 strided mutation sites on four bases" } else { "" }
         ),
